@@ -31,6 +31,9 @@ RULE = (
     "(operation, level, multiset of leaf value kinds)."
     " Half of the multiwalk/bulkwalk cases walk 2-7 sibling roots (x.1 / x.10..x.13, x.2 / x."
     "20, table columns) in any order."
+    " Seventeen values whose content does not suit their type go through eight wrapper operat"
+    "ions (strict and lenient): refusing is fine, whatever is returned consists of built-in t"
+    "ypes."
 )
 ASSUMPTIONS = [
     "pythonisation per type: INTEGER/Counter/Gauge/Counter64 -> int, OCTET STRING/Opaque -> bytes, OID -> dotted str, IpAddress -> IPv4Address, TimeTicks -> timedelta(10 ms * t), NULL and exception markers -> None",
